@@ -579,7 +579,10 @@ pub struct BigShape {
     pub old_extra: Vec<Extra>,
     pub new_extra: Vec<Extra>,
 }
-pub struct TextBig;
+/// `TextBig(0)`: C14's above-threshold family (sub-check "C14b"); `TextBig(1)`: the same family
+/// with C04's reconstruction walk over the changes (sub-check "C04b"); `TextBig(2)`: with C17's
+/// remapper / one-call helpers incl. utils::diff_slices over more than 100 items ("C17b").
+pub struct TextBig(pub u8);
 
 fn all_extras() -> Vec<Extra> {
     let mut v = vec![];
@@ -593,9 +596,11 @@ fn all_extras() -> Vec<Extra> {
 
 impl TextBig {
     /// builds one side: returns the characters of the text
-    fn side(skel: &[Vec<Sym>], extras: &[Extra], tok: Tok) -> Vec<Sym> {
+    fn side(skel: &[Vec<Sym>], extras: &[Extra], tok: Tok, shared: &[Sym]) -> Vec<Sym> {
         let mk = |e: &Extra| -> Vec<Sym> {
             match e.kind {
+                // the shared fresh token P (the same token on both sides and at every use)
+                4 => shared.to_vec(),
                 0 => {
                     let c = symtxt::fresh_char(symtxt::Class::Ord);
                     if tok == Tok::Lines {
@@ -636,7 +641,11 @@ impl TextBig {
 impl Prop for TextBig {
     type Shape = BigShape;
     fn id(&self) -> &'static str {
-        "C14b"
+        match self.0 {
+            1 => "C04b",
+            2 => "C17b",
+            _ => "C14b",
+        }
     }
     fn shapes(&self, tier: Tier) -> Vec<BigShape> {
         let mut v = vec![];
@@ -655,6 +664,38 @@ impl Prop for TextBig {
             combos.push((vec![*a], vec![*b]));
             combos.push((vec![*a, *b], vec![]));
             combos.push((vec![], vec![*a, *b]));
+        }
+        // tails of up to three tokens over {copy of the first skeleton token, a shared fresh token P}
+        // appended to both sides (a head token that recurs once in each remainder, next to repeats)
+        let mut tails: Vec<Vec<Extra>> = vec![vec![]];
+        {
+            let mut cur: Vec<Vec<Extra>> = vec![vec![]];
+            for _ in 0..3 {
+                let mut nx = vec![];
+                for t in &cur {
+                    for kind in [1u8, 4u8] {
+                        let mut u = t.clone();
+                        u.push(Extra { pos: 2, kind });
+                        nx.push(u);
+                    }
+                }
+                tails.extend(nx.iter().cloned());
+                cur = nx;
+            }
+        }
+        for alg in ALGS {
+            if alg == Algorithm::Lcs && tier == Tier::Quick {
+                continue;
+            }
+            for skel in [99usize, 101] {
+                for a in &tails {
+                    for b in &tails {
+                        if a.len() + b.len() >= 3 && a != b {
+                            v.push(BigShape { alg, tok: Tok::Chars, skel, old_extra: a.clone(), new_extra: b.clone() });
+                        }
+                    }
+                }
+            }
         }
         for alg in ALGS {
             for tok in [Tok::Chars, Tok::Lines] {
@@ -700,8 +741,16 @@ impl Prop for TextBig {
             }
         }
         let n_skel_ids = skel.iter().map(|t| t.len()).sum::<usize>() as u32;
-        let old = TextBig::side(&skel, &s.old_extra, s.tok);
-        let new = TextBig::side(&skel, &s.new_extra, s.tok);
+        let shared: Vec<Sym> = {
+            let c = symtxt::fresh_char(symtxt::Class::Ord);
+            if s.tok == Tok::Lines {
+                vec![c, symtxt::fresh_char(symtxt::Class::Lf)]
+            } else {
+                vec![c]
+            }
+        };
+        let old = TextBig::side(&skel, &s.old_extra, s.tok, &shared);
+        let new = TextBig::side(&skel, &s.new_extra, s.tok, &shared);
         let mut fs = vec![];
         for c in old.iter().chain(new.iter()) {
             if c.0 >= n_skel_ids && symtxt::class_of(*c) == symtxt::Class::Ord {
@@ -726,6 +775,37 @@ impl Prop for TextBig {
             engine::witness("paths_above_the_threshold");
         } else {
             engine::witness("paths_at_or_below_the_threshold");
+        }
+        if self.0 == 2 {
+            let remap = TextDiffRemapper::from_text_diff(&diff, ot, nt);
+            let mut all: Vec<(ChangeTag, &SymTxt)> = vec![];
+            for op in &ops {
+                all.extend(remap.iter_slices(op));
+            }
+            check_slices(&all, &old, &new, "remapper.iter_slices over all ops (more than 100 tokens)");
+            let helper: Vec<(ChangeTag, &SymTxt)> = if s.tok == Tok::Lines { similar::utils::diff_lines(s.alg, ot, nt) } else { similar::utils::diff_chars(s.alg, ot, nt) };
+            check_slices(&helper, &old, &new, "utils::diff_{lines,chars} (more than 100 tokens)");
+            if s.tok == Tok::Chars {
+                let ds: Vec<(ChangeTag, &[Sym])> = similar::utils::diff_slices(s.alg, &old[..], &new[..]);
+                let conv: Vec<(ChangeTag, &SymTxt)> = ds.iter().map(|(t, x)| (*t, SymTxt::new(x))).collect();
+                check_slices(&conv, &old, &new, "utils::diff_slices (more than 100 items)");
+            }
+            if ops.iter().any(|o| o.tag() != DiffTag::Equal) {
+                engine::witness("paths_with_changes");
+            }
+            return format!("{:?}", ops);
+        }
+        if self.0 == 1 {
+            check_partition(&olds, &old, "old");
+            check_partition(&news, &new, "new");
+            let all: Vec<Change<&SymTxt>> = diff.iter_all_changes().collect();
+            check_changes(&all, &olds, &news, "iter_all_changes (more than 100 tokens)");
+            let per_op: Vec<Change<&SymTxt>> = ops.iter().flat_map(|op| diff.iter_changes(op)).collect();
+            check_changes(&per_op, &olds, &news, "ops().flat_map(iter_changes) (more than 100 tokens)");
+            if ops.iter().any(|o| o.tag() != DiffTag::Equal) {
+                engine::witness("paths_with_changes");
+            }
+            return format!("{:?}", ops);
         }
         let direct = capture_diff_slices(s.alg, &olds, &news);
         claim!(
@@ -778,7 +858,7 @@ impl Prop for TextBig {
         BigShape { alg: alg_from(v["alg"].as_str().unwrap()), tok: Tok::from(v["tok"].as_str().unwrap()), skel: v["skeleton_tokens"].as_u64().unwrap() as usize, old_extra: e("old_extra"), new_extra: e("new_extra") }
     }
     fn describe(&self, s: &BigShape, ints: &[i64], _b: &[bool]) -> Value {
-        json!({"shape": self.shape_json(s), "note": "skeleton tokens are pairwise different; extras: [position 0/1/2 = front/middle/end, kind 0 = fresh token, 1/2/3 = copy of first/middle/last skeleton token]", "values_of_free_characters": ints.iter().skip(s.skel * if s.tok == Tok::Lines { 2 } else { 1 }).collect::<Vec<_>>()})
+        json!({"shape": self.shape_json(s), "note": "skeleton tokens are pairwise different; extras: [position 0/1/2 = front/middle/end, kind 0 = fresh token, 1/2/3 = copy of first/middle/last skeleton token, 4 = the shared fresh token P]", "values_of_free_characters": ints.iter().skip(s.skel * if s.tok == Tok::Lines { 2 } else { 1 }).collect::<Vec<_>>()})
     }
     fn meta(&self, tier: Tier) -> Meta {
         Meta {
@@ -786,7 +866,7 @@ impl Prop for TextBig {
                 "similar::TextDiffConfig::diff (the `old.len() > 100 || new.len() > 100` branch): IdentifyDistinct::<u32>::new over &SymTxt tokens + capture_diff_deadline over the integer lookups",
                 "similar::capture_diff_slices over the same tokens (the reference)",
             ],
-            bounds: format!("token counts on both sides of the threshold: a shared skeleton of 99 / 100 / 101 / 103 pairwise-different tokens plus up to 2 extra tokens at the front / middle / end of either side ({}), each extra either a fresh symbolic token or a copy of the first / middle / last skeleton token; char tokens and line tokens; 3 algorithms (LCS and line tokens: at most one extra)", match tier { Tier::Quick => "a third of the two-extra combinations", Tier::Thorough => "all two-extra combinations" }),
+            bounds: format!("token counts on both sides of the threshold: a shared skeleton of 99 / 100 / 101 / 103 pairwise-different tokens plus up to 2 extra tokens at the front / middle / end of either side ({}), each extra either a fresh symbolic token or a copy of the first / middle / last skeleton token; plus tails of up to three tokens over (copy of the first skeleton token, one shared fresh token) appended to both sides; char tokens and line tokens; 3 algorithms (LCS and line tokens: at most one extra)", match tier { Tier::Quick => "a third of the two-extra combinations", Tier::Thorough => "all two-extra combinations" }),
             outside: "fresh extra tokens are assumed different from every skeleton token (coinciding is covered only by the explicit 'copy' kinds); unstructured inputs above the threshold (path explosion); other tokenizers above the threshold (the code path does not depend on the tokenizer)".into(),
             assumptions: vec!["class-based Hash for this family (skeleton token i -> i, fresh tokens -> one class), lawful under the stated assumption".into()],
             required_witnesses: vec!["paths_above_the_threshold", "paths_at_or_below_the_threshold", "paths_with_changes"],
